@@ -11,28 +11,37 @@ structure Step (st st' : State) (L : Nat) : Prop where
   cfg : st'.cfg = st.cfg
   len : st'.streams.length = st.streams.length
   mono : (st.stream L).targetDur ≤ (st'.stream L).targetDur
+  irel : IRel st st'
 
-theorem Step.refl {st : State} {L : Nat} (h : GI st L) : Step st st L := ⟨h, rfl, rfl, Int.le_refl _⟩
+theorem Step.refl {st : State} {L : Nat} (h : GI st L) : Step st st L := ⟨h, rfl, rfl, Int.le_refl _, IRel.refl _⟩
 theorem Step.trans {a b c : State} {L : Nat} (h1 : Step a b L) (h2 : Step b c L) : Step a c L :=
-  ⟨h2.gi, h2.cfg.trans h1.cfg, h2.len.trans h1.len, Int.le_trans h1.mono h2.mono⟩
+  ⟨h2.gi, h2.cfg.trans h1.cfg, h2.len.trans h1.len, Int.le_trans h1.mono h2.mono, h1.irel.trans h2.irel⟩
 
-theorem Step_congr {st st' : State} {L : Nat} (h : GI st L) (hc : st'.cfg = st.cfg) (hs : st'.streams = st.streams) :
-    Step st st' L :=
-  ⟨GI_congr h hc hs, hc, by rw [hs], by rw [stream_eq_of_streams hs]; exact Int.le_refl _⟩
+theorem Step_congr {st st' : State} {L : Nat} (h : GI st L) (hc : st'.cfg = st.cfg) (hs : st'.streams = st.streams)
+    (hp : st'.paths = st.paths) : Step st st' L :=
+  ⟨GI_congr h hc hs, hc, by rw [hs], by rw [stream_eq_of_streams hs]; exact Int.le_refl _,
+   IRel_of_same (fun si => by rw [stream_eq_of_streams hs]) hp⟩
 
 theorem Step_setTrack {st : State} {L : Nat} (h : GI st L) (i t) : Step st (st.setTrack i t) L :=
-  Step_congr h rfl rfl
+  Step_congr h rfl rfl rfl
 
 theorem Step_createFirstSegment {st : State} {L : Nat} (h : GI st L) (hn : (st.stream L).nextSegment = none) (d n : Int) :
     Step st (createFirstSegment st d n) L := by
   obtain ⟨hf, hlen, hs⟩ := createFirstSegment_spec st d n
-  refine ⟨GI_createFirstSegment h hn d n, hf.1.1, hlen, ?_⟩
-  rw [hs L h.lt, (cfS_fields ..).2.1]; exact Int.le_refl _
+  refine ⟨GI_createFirstSegment h hn d n, hf.1.1, hlen, ?_, ?_⟩
+  · rw [hs L h.lt, (cfS_fields ..).2.1]; exact Int.le_refl _
+  · refine IRel_of_same (fun si => ?_) hf.2.2
+    by_cases hsi : si < st.streams.length
+    · rw [hs si hsi, (cfS_fields ..).2.2.2.1]
+    · have hd : ∀ x : State, x.streams.length = st.streams.length → x.stream si = { tracks := [], isLeading := false, nextSegmentID := 0 } := by
+        intro x hx
+        simp [State.stream, List.getD_eq_getElem?_getD, List.getElem?_eq_none (by rw [hx]; exact Nat.le_of_not_lt hsi)]
+      rw [hd _ hlen, hd _ rfl]
 
 theorem Step_rotateParts {st : State} {L : Nat} (h : GI st L) (hv : st.cfg.variant ≠ .mpegts) (d : Int) :
     Step st (rotateParts st d) L := by
   obtain ⟨hg, hf, hlen, hL, _⟩ := GI_rotateParts h hv d
-  refine ⟨hg, hf.cfg, hlen, ?_⟩
+  refine ⟨hg, hf.cfg, hlen, ?_, IRel_rotateParts st d (by rw [h.leadingStream]; exact h.lt)⟩
   rw [hL, rpS_targetDur]; exact Int.le_refl _
 
 theorem rsS_targetDur_mono (v n s c d ntp f) : s.targetDur ≤ (rsS v n s c d ntp f).targetDur := by
@@ -54,18 +63,19 @@ theorem rsS_targetDur_mono (v n s c d ntp f) : s.targetDur ≤ (rsS v n s c d nt
 theorem Step_rotateSegments {st : State} {L : Nat} (h : GI st L) (d n : Int) (f : Bool) :
     Step st (rotateSegments st d n f) L := by
   obtain ⟨hg, hf, hlen, hL, _⟩ := GI_rotateSegments h d n f
-  refine ⟨hg, hf.cfg, hlen, ?_⟩
+  refine ⟨hg, hf.cfg, hlen, ?_, IRel_rotateSegments st d n f (by rw [h.leadingStream]; exact h.lt)⟩
   rw [hL]; exact rsS_targetDur_mono ..
 
 theorem pws_cfg_len {st st' : State} (ti : Nat) (smp : Sample) (r : WriteRes)
     (hw : partWriteSample st ti smp = (st', r)) : st'.cfg = st.cfg ∧ st'.streams.length = st.streams.length ∧
-    ∀ j, (st'.stream j).targetDur = (st.stream j).targetDur := by
+    (∀ j, (st'.stream j).targetDur = (st.stream j).targetDur) ∧ IRel st st' := by
   cases r with
-  | err => rw [pws_err st ti smp st' hw]; exact ⟨rfl, rfl, fun _ => rfl⟩
+  | err => rw [pws_err st ti smp st' hw]; exact ⟨rfl, rfl, fun _ => rfl, IRel.refl _⟩
   | ok =>
     obtain ⟨indep, e, _⟩ := pws_ok st ti smp st' hw
     have hs : st'.streams = st.streams.set (st.streamOf ti) (pwS (st.stream (st.streamOf ti)) smp.size indep) := by rw [e]; rfl
-    refine ⟨by rw [e]; rfl, length_of_set hs, fun j => ?_⟩
+    refine ⟨by rw [e]; rfl, length_of_set hs, fun j => ?_,
+      IRel_of_same (stream_tracks_of_set hs (pwS_fields ..).2.2.2.1) (by rw [e]; rfl)⟩
     rw [stream_of_set hs]
     split
     · rename_i hj; rw [(pwS_fields ..).2.1, hj.1]
@@ -73,21 +83,22 @@ theorem pws_cfg_len {st st' : State} (ti : Nat) (smp : Sample) (r : WriteRes)
 
 theorem Step_partWriteSample {st st' : State} {L : Nat} (h : GI st L) (ti : Nat) (smp : Sample) (r : WriteRes)
     (hw : partWriteSample st ti smp = (st', r)) : Step st st' L := by
-  obtain ⟨h1, h2, h3⟩ := pws_cfg_len ti smp r hw
-  exact ⟨GI_partWriteSample h ti smp r hw, h1, h2, by rw [h3]; exact Int.le_refl _⟩
+  obtain ⟨h1, h2, h3, h4⟩ := pws_cfg_len ti smp r hw
+  exact ⟨GI_partWriteSample h ti smp r hw, h1, h2, by rw [h3]; exact Int.le_refl _, h4⟩
 
 theorem Step_tsWrite {st st' : State} {L : Nat} (h : GI st L) (u size e c) (r : WriteRes)
     (hw : tsWrite st u size e c = (st', r)) : Step st st' L := by
-  refine ⟨GI_tsWrite h u size e c r hw, ?_, ?_, ?_⟩
+  refine ⟨GI_tsWrite h u size e c r hw, ?_, ?_, ?_, ?_⟩
   all_goals
     cases r with
-    | err => have e0 := tsw_err st u size e c st' hw; subst e0; first | rfl | exact Int.le_refl _
+    | err => have e0 := tsw_err st u size e c st' hw; subst e0; first | rfl | exact Int.le_refl _ | exact IRel.refl _
     | ok =>
       obtain ⟨e', _⟩ := tsw_ok st u size e c st' hw
       have hs : st'.streams = st.streams.set 0 (twS (st.stream 0) u size e c) := by rw [e']; rfl
       first
         | (rw [e']; rfl)
         | exact length_of_set hs
+        | exact IRel_of_same (stream_tracks_of_set hs (twS_fields ..).2.2.2.1) (by rw [e']; rfl)
         | (rw [stream_of_set hs]; split
            · rename_i hj; rw [(twS_fields ..).2.1, hj.1]; exact Int.le_refl _
            · exact Int.le_refl _)
@@ -100,7 +111,7 @@ theorem Step_adjust {st : State} {L : Nat} (h : GI st L) (sd : Int) : Step st (a
     · exact Step.refl h
     · split
       · exact Step.refl h
-      · exact Step_congr h rfl rfl
+      · exact Step_congr h rfl rfl rfl
 
 /-! ## fmp4Write in factored form -/
 
@@ -200,7 +211,7 @@ theorem Step_fwTail {st0 st : State} {L : Nat} (h : GI st L) (ti : Nat) (ra chan
     have := Step_rotateSegments h (toDur (fwSmp st0 ti smp).dts (st0.tcfg ti).clockRate) (fwSmp st0 ti smp).ntp changed
     refine this.trans ?_
     unfold fwRotate
-    cases changed <;> exact Step_congr this.gi rfl rfl
+    cases changed <;> exact Step_congr this.gi rfl rfl rfl
   · simp only [h1, if_false, Bool.false_eq_true]
     by_cases h2 : fwPartDue st0 ti smp st
     · simp only [h2, if_true]
@@ -391,14 +402,15 @@ theorem paramsStep_eq (st : State) (ti par : Nat) (ra : Bool) :
 theorem h264Absorb_eq (st : State) (op : WriteOp) : h264Absorb st op = paramsAbsorb st op.track op.par := rfl
 
 theorem paramsStep_frame (st : State) (ti par : Nat) (ra : Bool) :
-    (paramsStep st ti par ra).1.cfg = st.cfg ∧ (paramsStep st ti par ra).1.streams = st.streams := by
+    (paramsStep st ti par ra).1.cfg = st.cfg ∧ (paramsStep st ti par ra).1.streams = st.streams ∧
+    (paramsStep st ti par ra).1.paths = st.paths := by
   unfold paramsStep
   simp only
-  split <;> split <;> exact ⟨rfl, rfl⟩
+  split <;> split <;> exact ⟨rfl, rfl, rfl⟩
 
 theorem Step_paramsStep {st : State} {L : Nat} (h : GI st L) (ti par : Nat) (ra : Bool) :
     Step st (paramsStep st ti par ra).1 L :=
-  Step_congr h (paramsStep_frame ..).1 (paramsStep_frame ..).2
+  Step_congr h (paramsStep_frame ..).1 (paramsStep_frame ..).2.1 (paramsStep_frame ..).2.2
 
 theorem GI.L0 {st : State} {L : Nat} (h : GI st L) (hv : st.cfg.variant = .mpegts) : L = 0 := by
   have := h.ts1 hv; have := h.lt; omega
@@ -462,7 +474,7 @@ theorem Step_wH264 {st : State} {L : Nat} (h : GI st L) (op : WriteOp) : Step st
   · unfold h264Absorb
     simp only
     split
-    · exact Step_congr h rfl rfl
+    · exact Step_congr h rfl rfl rfl
     · exact Step.refl h
   · have h1 := Step_paramsStep h op.track op.par op.ra
     exact h1.trans (Step_wH264Gate h1.gi op _)
